@@ -47,7 +47,7 @@ type Letx struct {
 // Call the function with the arguments provided.
 func (f *Letx) Call(s *slip.Scope, args slip.List, depth int) (result slip.Object) {
 	slip.CheckArgCount(s, depth, f, args, 1, -1)
-	bindings, ok := args[0].(slip.List)
+	bindings, ok := listArg(args[0])
 	if !ok {
 		slip.TypePanic(s, depth, "let* bindings", args[0], "list")
 	}
